@@ -533,6 +533,7 @@ func Run(tier, replay string) {
 		}
 	}
 	rep.Exhaustive = false
+	os.RemoveAll(dir) // Finish exits the process: deferred calls do not run
 	rep.Finish()
 }
 
